@@ -605,7 +605,10 @@ func runCase(rt *rapid.T) {
 				for _, pt := range pkTouches {
 					w.pubkeys[pt.k] = pt.p
 				}
-				// lazily trimmed duties are deleted at the end of a store that ran to completion
+				// lazily trimmed duties are deleted at the end of a store that ran to completion: the
+				// queries this store answered were answered before that, judge them against the state
+				// before the deletion
+				w.check(w.trace[len(w.trace)-1]+" (answers before trim)", false)
 				for _, d := range w.toDelete {
 					for k := range w.model {
 						if k.slot == d.Slot && dutyFam(d.Type) == k.fam {
